@@ -23,9 +23,67 @@ CHECKS = {
         engine='framing'),
 }
 
+MUX_NOTE = ('Bounded / sampled: TLC explores the specification side exhaustively within small constants; '
+            'the real code is driven on harness-enumerated small inputs and on random cases of the '
+            'property\'s operator family, every recorded execution is judged by TLC. Trusts: the taps '
+            '(user-level operators) observe events in true emission order because rxsci is synchronous; '
+            'user functions come from the finite library FnLib; TLC, the Json module and rx Subjects.')
+
+
+def mux_text(what):
+    return ('Layer-A contracts in TLA+ (ListSem.tla: list semantics R/F of every operator, window/run/'
+            'group/session partitions; Contracts.tla: relations between the event logs of adjacent '
+            'operator boundaries, with the causing input event of every output so that emission time is '
+            'part of the contract). ' + what + ' TLC model-checks the list semantics against independent '
+            'formulations of the statement (ListSemCheck.tla) and judges every execution recorded from '
+            'the real code, with a tap at every boundary, through MuxTrace.tla; only clauses belonging to '
+            'this property count as its violations.')
+
+
+MUX = {
+    'C02': 'C02: the contracts are functions of one key lifetime\'s items only, so an accepted trace means the '
+           'outputs of every lifetime depended on nothing else; driven with every stateful operator inside '
+           'every key-reusing parent (roll ring reuse, tumbling roll, split, time_split, nested group_by, '
+           're-created top-level keys), interleaved parents.',
+    'C03': 'C03: the key lifecycle automaton (create / items / exactly one completion, unique slot index among '
+           'live keys, everything completed at stream completion) is evaluated at every boundary of every '
+           'pipeline, including the boundaries inside composite operators and tee branches.',
+    'C04': 'C04: the child lifetimes at the head of group_by\'s inner pipeline must be Groups(key_mapper, items): '
+           'exhaustive item sequences over 4 values x 3 key functions, key functions returning '
+           'equal-but-not-identical objects, nesting in group_by/roll/split, many keys.',
+    'C05': 'C05: the child lifetimes at the head of roll\'s inner pipeline must be Windows(w, s, n) created, fed '
+           'and closed in the right steps and closed in opening order: all 1<=w,s<=5 (6), lengths 0..14, '
+           'interleaved parents, nesting.',
+    'C06': 'C06: child lifetimes of split must be the maximal runs Runs(predicate values): exhaustive sequences, '
+           'predicates returning equal-but-not-identical objects, nesting.',
+    'C07': 'C07: non-empty child lifetimes of time_split must be Sessions(active, inactive, closing, include): '
+           'all configurations x exhaustive small timestamp/closing-flag sequences (equal timestamps, gaps equal '
+           'to a timeout), integer and datetime renderings, interleaved keys.',
+    'C08': 'C08: every branch head sees the source events; the output is Join(mode, branch tail events in '
+           'emission order) with a join state per key lifetime: branch catalogue x 3 joins, 2..4 branches, '
+           'nested tee, under group_by/roll/split.',
+    'C09': 'C09: scan and every operator defined through it equal the left fold of the lifetime\'s items '
+           '(streaming / reduce / terminator, seeds as values and factories, mutating accumulators), all '
+           'interleavings of short keys, inside windows and groups.',
+    'C10': 'C10: first/last/take/distinct/distinct_until_changed/lag/pad_start/pad_end/start_with/batch against '
+           'their list definitions on every sequence over {0,1,2,None} up to length 4 (5) and all parameters.',
+    'C11': 'C11: every contract compares outputs together with the source event that caused them (-timing, '
+           '-child-item-step, -child-close-step clauses): random nested pipelines plus a dedicated promptness '
+           'set.',
+    'C13': 'C13: failing user functions (every subset of failing positions) x handlers none/ignore/error.map/'
+           'router x stateful operators downstream; dead-letter order and completion; unhandled errors must '
+           'end the stream with that exception where it is demultiplexed.',
+}
+for _i, _t in MUX.items():
+    CHECKS[_i] = dict(text=mux_text(_t), note=MUX_NOTE, design='8 (%s), Appendix A/B' % _i, engine='mux-contracts')
+
 ENGINES = [
     dict(name='framing', path='spec/LineFraming.tla spec/LengthPrefix.tla spec/*Trace.tla harness/checks/c15.py',
          serves_properties=['C15'], kind_free_text='TLA+ transducer spec + TLC + trace validation'),
+    dict(name='mux-contracts', path='spec/FnLib.tla spec/ListSem.tla spec/ListSemCheck.tla spec/Contracts.tla '
+                                    'spec/MuxTrace.tla harness/mux.py harness/muxgen.py harness/muxcheck.py '
+                                    'harness/checks/muxprops.py',
+         serves_properties=sorted(MUX), kind_free_text='TLA+ contracts over boundary logs + TLC trace validation'),
 ]
 
 PENDING = 'check not built yet (work in progress; will be claimed when its TLA+ spec and conformance harness are committed)'
